@@ -2,7 +2,7 @@
 import ast
 import re
 
-from .. import form, q, symeval, trace
+from .. import boolq, form, q, symeval, trace
 from ..core import AnalysisError, const, dotted, norm, calls_in, call_name
 from ..form import Rat
 
@@ -123,12 +123,31 @@ def check_writers(ctx):
                msg="%s cell format is %r, documented precision is %d significant digits" % (name, fm, digits), sample={"rule": "C12.2", "writer": name, "format": fm})
         if name == "csv":
             ctx.ob("C12.2", site, fm.strip() == ",%g", "csv cell format is exactly ',%g'", loc=loc, msg="csv cell format is %r" % fm)
-        # -f: the same string goes to the file or to the screen
+        # -f: the same string goes to the file or to the screen (from the call events of the folded function; helpers are seen through)
         src = fx["src"]
-        ok = "if self.filename is not None:" in src and "file = open(self.filename, 'w')" in src and "file.write(s)" in src and "print(s)" in src
-        ctx.ob("C12.3", site, ok, "with -f the string that would be printed is written to that file", loc=loc, msg="%s: file output and screen output no longer share one string" % name)
-        ctx.ob("C12.3", site, src.count("file.write(") == 2 and "file.close()" in src, "the file gets the table and a final newline, then is closed", loc=loc, msg="%s: file writing changed" % name)
-        ctx.ob("C12.1", site, "self._get_x_y(data, self.axis)" in src, "%s() takes the table from _get_x_y(data, self.axis)" % name, loc=loc, msg="%s does not use _get_x_y(data, self.axis)" % name)
+        evw = trace.trace(prog, site)
+        prints = [e for e in trace.calls(evw) if e["name"] == "print" and e["args"]]
+        writes = [e for e in trace.calls(evw) if isinstance(e["node"].func, ast.Attribute) and e["node"].func.attr == "write" and e["args"]
+                  and isinstance(e.get("recv"), Rat) and e["recv"].as_atom("call:open") is not None]
+        closes = [e for e in trace.calls(evw) if isinstance(e["node"].func, ast.Attribute) and e["node"].func.attr == "close"
+                  and isinstance(e.get("recv"), Rat) and e["recv"].as_atom("call:open") is not None]
+        given = boolq.prop(form.apply("cmp_ne", [Rat.sym("None") - Rat.sym("self.filename"), Rat.const(0)]))
+        ok = bool(prints) and bool(writes) and isinstance(prints[0]["args"][0], Rat) and isinstance(writes[0]["args"][0], Rat) \
+            and prints[0]["args"][0].equals(writes[0]["args"][0])
+        if ok:
+            op = writes[0]["recv"].as_atom("call:open")
+            ok = len(op.args) >= 2 and isinstance(op.args[0], Rat) and op.args[0].key() == "$self.filename" and symeval._strval(op.args[1]) == "w"
+            try:
+                ok = ok and boolq.implies(boolq.conj(writes[0]["conds"]), given) and boolq.implies(boolq.conj(prints[0]["conds"]), ("not", given))
+            except boolq.TooBig:
+                pass
+        ctx.ob("C12.3", site, ok, "with -f the string that would be printed is written to that file (opened for writing), otherwise it is printed", loc=loc,
+               msg="%s: file output and screen output no longer share one string / the file is not self.filename opened with 'w'" % name)
+        nl = len(writes) == 2 and symeval._strval(writes[1]["args"][0]) == "\n"
+        ctx.ob("C12.3", site, nl and bool(closes), "the file gets the table and a final newline, then is closed", loc=loc, msg="%s: file writing changed" % name)
+        gx = [e for e in trace.calls(evw) if e["name"] == "self._get_x_y" and len(e["args"]) == 2]
+        ctx.ob("C12.1", site, bool(gx) and all(e["args"][0].key() == "$data" and e["args"][1].key() == "$self.axis" for e in gx),
+               "%s() takes the table from _get_x_y(data, self.axis)" % name, loc=loc, msg="%s does not use _get_x_y(data, self.axis)" % name)
     # header
     ctx.ob("C12.1", "verif.output.Output.csv", "s = ','.join(descs.keys()) + ',' + ','.join(labels) + '\\n'" in c["src"], "csv header: descriptor names then one column per input",
            msg="csv header construction changed")
